@@ -65,6 +65,11 @@ package retriever
 //@   modifies written[outputDir]
 //@   ensures result == nil ==> written[outputDir] == {}
 
+//@ func removeDirectoryEntries(dir string)
+//@   opaque
+//@   modifies written[dir]
+//@   ensures written[dir] == {}
+
 //@ func (s ProgressFunc) emit(event ProgressEvent)
 //@   opaque
 //@   nomod
